@@ -288,7 +288,7 @@ func (f *fctx) applyLemma(ap *ECall, env *Env) error {
 				vars[k] = v
 			}
 			// the instance is stated without revealing opaque definitions: it is a fact about the symbols
-			e := &Env{Vars: vars, Defs: f.vc.cs.Defs, Reveal: f.revealSet()}
+			e := &Env{Vars: vars, Defs: f.vc.cs.Defs, Reveal: f.revealSet(), Pure: f.vc.pureResolverDir(lem.PkgDir)}
 			var hyps []Term
 			for _, st := range lem.Stmts {
 				switch st.Kind {
@@ -1991,7 +1991,15 @@ func (f *fctx) loopEnv(h *ssa.BasicBlock, from *ssa.BasicBlock, st *State) *Env 
 	reveal := f.revealSet()
 	env := &Env{Vars: vars, Defs: f.vc.cs.Defs, Sorts: sorts, Funcs: funcs, Pure: pure, Reveal: reveal, Ghost: f.ghostResolver(st)}
 	env.FieldOf = func(x Term, field string) (Term, bool) { return f.fieldIn(st, x, field) }
-	env.Old = &Env{Vars: vars, Defs: f.vc.cs.Defs, Sorts: sorts, Funcs: funcs, Pure: pure, Reveal: reveal, Ghost: f.ghostResolver(f.entry), FieldOf: func(x Term, field string) (Term, bool) { return f.fieldIn(f.entry, x, field) }}
+	// inside old(...) a parameter name means the value the parameter had on entry (parameters are mutable in Go)
+	oldVars := map[string]Term{}
+	for k, v := range vars {
+		oldVars[k] = v
+	}
+	for n, t := range f.paramTerms {
+		oldVars[n] = t
+	}
+	env.Old = &Env{Vars: oldVars, Defs: f.vc.cs.Defs, Sorts: sorts, Funcs: funcs, Pure: pure, Reveal: reveal, Ghost: f.ghostResolver(f.entry), FieldOf: func(x Term, field string) (Term, bool) { return f.fieldIn(f.entry, x, field) }}
 	return env
 }
 
